@@ -78,6 +78,17 @@ func checkRoundTrip(k *collector, spec MsgSpec) {
 		k.fail("C15: text round trip changes the message", fmt.Sprintf("%+v encodes to %q; after UnmarshalText: ID %q/%v type %q/%v retry %v, re-encoded %q", spec, s, back.ID.String(), back.ID.IsSet(), back.Type.String(), back.Type.IsSet(), back.Retry, back.String()), spec)
 		return
 	}
+	// the receiver decoded into again: a clone taken in between keeps the first text, the receiver reads as the second
+	kept := back.Clone()
+	const second = ": zz\ndata: q\n: yy\ndata: r\ndata: s\n\n"
+	if err := back.UnmarshalText([]byte(second)); err != nil || back.String() != second || back.ID.IsSet() || back.Type.IsSet() || back.Retry != 0 {
+		k.fail("C15: decoding into a receiver that was used before", fmt.Sprintf("%q decoded into a message that held %q: err %v, re-encoded %q, ID set %v, type set %v, retry %v", second, s, err, back.String(), back.ID.IsSet(), back.Type.IsSet(), back.Retry), spec)
+		return
+	}
+	if kept.String() != s {
+		k.fail("C15: decoding into a receiver changes a clone taken from it before", fmt.Sprintf("%+v decoded from %q and cloned; after the receiver decoded %q the clone encodes to %q", spec, s, second, kept.String()), spec)
+		return
+	}
 	// Re-encoding equal bytes proves nothing if the bytes themselves merged or split lines: the text must carry
 	// exactly the appended data and comment lines (counted by an independent line splitter and the reference).
 	comments := 0
@@ -217,7 +228,7 @@ var C15 = &sqrun.Check{ID: "C15", QuickBudget: 60, ThoroughBudget: 600,
 		cov := ev.Coverage{"evaluations": k.cases.Load(), "distinct_nontrivial": k.nontriv.Load(), "exhaustive": k.exhaustive(),
 			"payload_strings": len(payloads), "field_strings": nf, "size_family_max_length": maxLen, "large_sizes": big,
 			"samples": []any{MsgSpec{Calls: []Call{{"data", []string{" a\r"}}}, ID: "", HasID: true}, map[string]any{"message": MsgSpec{ID: "i", HasID: true}, "fault": "Write #2 accepts 1 byte"}},
-			"rule":    fmt.Sprintf("every string of <= %d tokens over %q as data and comment payload, and every combination of ID / type (all %d single-line strings of <= 2 tokens, set or unset, incl. the empty string) x 10 Retry values (incl. negative ones down to the int64 minimum) x 3 chunk shapes: (1) round trip UnmarshalText(MarshalText(m)) compared field by field and by re-encoding; WriteTo/MarshalText/String byte-identical; nothing to write => zero bytes; (2) fault enumeration: for every Write call k of the encoding and every j in [0, len(k-th write)] a writer that accepts j bytes of the k-th write and fails; (3) size family: data line, comment line, ID and type of every length 0..%d (faults for every length up to 160 and two in sixteen above), and the round trip of messages of 4 KiB, 64 KiB (each -1, +0, +1), 70 000 and 200 000 bytes. Non-trivial = messages with at least one field / every fault case.", L, toks, nf, maxLen)}
+			"rule":    fmt.Sprintf("every string of <= %d tokens over %q as data and comment payload, and every combination of ID / type (all %d single-line strings of <= 2 tokens, set or unset, incl. the empty string) x 10 Retry values (incl. negative ones down to the int64 minimum) x 3 chunk shapes: (1) round trip UnmarshalText(MarshalText(m)) compared field by field and by re-encoding; WriteTo/MarshalText/String byte-identical; the receiver decoded into again with a clone taken in between (the clone keeps the first text); nothing to write => zero bytes; (2) fault enumeration: for every Write call k of the encoding and every j in [0, len(k-th write)] a writer that accepts j bytes of the k-th write and fails; (3) size family: data line, comment line, ID and type of every length 0..%d (faults for every length up to 160 and two in sixteen above), and the round trip of messages of 4 KiB, 64 KiB (each -1, +0, +1), 70 000 and 200 000 bytes. Non-trivial = messages with at least one field / every fault case.", L, toks, nf, maxLen)}
 		return &sqrun.Outcome{Level: "fault_enumeration", Coverage: cov, Assumptions: []string{"IDs containing NUL are outside the round-trip clause (the property says so); negative Retry values round-trip to zero (nothing is written for them)"}}
 	},
 }
